@@ -392,4 +392,107 @@ def SendCall.need (c : SendCall) : Nat := (c.stages.map Stage.need).sum
 /-- everything the call writes when it succeeds -/
 def SendCall.content (c : SendCall) : Bytes := (c.stages.map Stage.content).flatten
 
+/-! ### a payload that is not contiguous
+
+`Frame<B>` / `WriteBuf<B>` are generic in `B: Buf`: an application may hand `send_data` a
+`bytes::buf::Chain`, a deque of `Bytes`, … — a `Buf` whose `chunk()` is only the first piece of
+what `remaining()` counts.  `segs` is such a payload as its list of segments (segments may be
+empty: `Bytes::new().chain(b)`).  `Frame::encode` takes the DATA length from `b.remaining()`,
+`impl Buf for WriteBuf` forwards `remaining`/`chunk`/`advance` to the payload once the header array
+is exhausted. -/
+
+/-- `Buf::remaining` of a segmented buffer: the sum over the segments -/
+def segsRemaining (cs : List Bytes) : Nat := (cs.map List.length).sum
+
+/-- `Buf::chunk`: the first segment that has bytes (`Chain::chunk`: `a.chunk()` while
+    `a.has_remaining()`, else `b.chunk()`); empty only when nothing remains (the `Buf` contract) -/
+def segsChunk : List Bytes → Bytes
+  | [] => []
+  | c :: r => if 0 < c.length then c else segsChunk r
+
+/-- `Buf::advance`: segment after segment (`Chain::advance`); `none` = the panic of the last
+    segment's `advance` past its end -/
+def segsAdvance : List Bytes → Nat → Option (List Bytes)
+  | [], 0 => some []
+  | [], _ + 1 => none
+  | c :: r, cnt => if cnt ≤ c.length then some (c.drop cnt :: r) else segsAdvance r (cnt - c.length)
+
+/-- a length taken from the payload the way the source does (`H3.Gen.WriteBuf.LenSrc`, read by the
+    translator from the `Frame::Data` arm of `Frame::encode` and from `WriteBuf::remaining`) -/
+def segsLenBy : LenSrc → List Bytes → Nat
+  | .remaining, cs => segsRemaining cs
+  | .chunkLen, cs => (segsChunk cs).length
+
+/-- `WriteBuf<B>` for a segmented `B` -/
+structure WBC where
+  buf : Bytes
+  len : Nat
+  pos : Nat
+  payload : Option (List Bytes)
+deriving Repr, DecidableEq
+
+/-- the same buffer with the payload in one piece -/
+def WBC.flat (w : WBC) : WB :=
+  { buf := w.buf, len := w.len, pos := w.pos, payload := w.payload.map List.flatten }
+
+def WBC.ofWB (w : WB) (p : Option (List Bytes)) : WBC :=
+  { buf := w.buf, len := w.len, pos := w.pos, payload := p }
+
+/-- `Frame::Data(b).encode`: `FrameType::DATA`, then `write_var(b.remaining())` -/
+def dataHeaderC (segs : List Bytes) : Option Bytes := do
+  let t ← writeVar FRAME_DATA
+  let l ← writeVar (segsLenBy DATA_LEN_SOURCE segs)
+  pure (t ++ l)
+
+/-- `From<Frame<B>>` for `Frame::Data(segs)` -/
+def fromDataC (segs : List Bytes) : Option WBC :=
+  ((WB.new none).putOpt (dataHeaderC segs)).map (WBC.ofWB · (some segs))
+
+/-- `From<(StreamType, Frame<B>)>` for `Frame::Data(segs)` -/
+def fromPairDataC (ty : Nat) (segs : List Bytes) : Option WBC :=
+  (((WB.new none).putOpt (writeVar ty)).bind (·.putOpt (dataHeaderC segs))).map
+    (WBC.ofWB · (some segs))
+
+def WBC.pay (w : WBC) : List Bytes := w.payload.getD []
+
+/-- `Buf::remaining`. -/
+def WBC.remaining (w : WBC) : Nat := w.len - w.pos + segsLenBy WRITEBUF_REMAINING_SOURCE w.pay
+
+/-- `Buf::chunk`: the rest of the header while there is one, then the payload's own `chunk()`. -/
+def WBC.chunk (w : WBC) : Bytes :=
+  if w.len - w.pos > 0 then (w.buf.take w.len).drop w.pos else segsChunk w.pay
+
+/-- `Buf::advance`. -/
+def WBC.advance (w : WBC) (cnt : Nat) : Option WBC :=
+  let rh := w.len - w.pos
+  let advanced := if rh > 0 then min cnt rh else 0
+  let rest := cnt - advanced
+  match w.payload with
+  | some p => (segsAdvance p rest).map (fun p' => { w with pos := w.pos + advanced, payload := some p' })
+  | none => some { w with pos := w.pos + advanced }
+
+def WBC.step (w : WBC) (k : Nat) : Option (Bytes × WBC) :=
+  let c := w.chunk
+  let n := min k c.length
+  (w.advance n).map (fun w' => (c.take n, w'))
+
+def WBC.drain : WBC → List Nat → Option (Bytes × WBC)
+  | w, [] => some ([], w)
+  | w, k :: ks =>
+    match w.step k with
+    | none => none
+    | some (o, w') =>
+      match WBC.drain w' ks with
+      | none => none
+      | some (o', w'') => some (o ++ o', w'')
+
+/-- `stream::write` with a segmented payload; `pending` carries the flattened rest -/
+def writeC (data : Option WBC) (script : List Nat) : WriteRes :=
+  match data with
+  | none => .panic
+  | some w =>
+    match w.drain script with
+    | none => .panic
+    | some (out, w') => if w'.remaining = 0 then .ready out else .pending out w'.flat
+
 end H3.WriteBuf
